@@ -67,7 +67,7 @@ def main():
             print("repo tests with change:", last)
         results = {}
         for c in checks:
-            env = dict(os.environ, PV_REPO=patched, VERIF_SEED="1")
+            env = dict(os.environ, PV_REPO=patched, VERIF_SEED="1", PV_OUT=os.path.join(scratch, "out"))
             env.pop("PYTHONPATH", None)
             p = subprocess.run([str(ROOT / "check"), c, "--tier", "quick"], cwd=str(ROOT), env=env, capture_output=True, text=True)
             viol = [l for l in p.stdout.splitlines() if l.startswith("VIOLATION")]
